@@ -14,6 +14,7 @@ Law ==
          ELSE IF ~Denotes(r.v, C.v) THEN <<"REJECT", "text-does-not-denote-the-value", <<C.v, r.v>>>>
          ELSE IF ~Matches(C.v, C.back) THEN <<"REJECT", "jsonParse-of-the-text-differs", <<C.v, C.back>>>>
          ELSE IF ~Matches(C.v, C.std) THEN <<"REJECT", "standard-parser-result-differs", <<C.v, C.std>>>>
+         ELSE IF ~C.fresh THEN <<"REJECT", "jsonParse-result-is-not-fresh", C.v>>
          ELSE <<"ACCEPT">>
 Init == tid \in 1..Len(Cases) /\ verdict = "open"
 Next == /\ verdict = "open" /\ verdict' = Law[1] /\ PrintT(<<"V", tid>> \o Law) /\ UNCHANGED tid
